@@ -670,7 +670,16 @@ def run_clone_case(env_, case, case_dir, log_path):
         argv.append("-f")
         shutil.copy("/bin/sleep", out_abs)
         os.chmod(out_abs, 0o755)
-        busy = subprocess.Popen([out_abs, "30"], stdin=subprocess.DEVNULL, stdout=subprocess.DEVNULL, stderr=subprocess.DEVNULL)
+        # (exec fails with ETXTBSY while any process still holds the copy open for writing - e.g. a child that another
+        # thread of this pool forked a moment ago and that has not reached its own exec yet: wait for it)
+        for attempt in range(200):
+            try:
+                busy = subprocess.Popen([out_abs, "30"], stdin=subprocess.DEVNULL, stdout=subprocess.DEVNULL, stderr=subprocess.DEVNULL)
+                break
+            except OSError as e:
+                if e.errno != 26 or attempt == 199:
+                    raise
+                time.sleep(0.02)
     if mode == "fail-missing-seed":
         argv += ["--seed", P(os.path.join("seeds", "no-such-seed.bin"))]
     if mode == "fail-missing-seed-in-place":
